@@ -160,7 +160,7 @@ func boolInt(b bool) int {
 }
 
 func c03(run *ev.Run) int {
-	run.SetRule("bodies = valid request and response bodies recorded from connect-go peers (3 protocols x 2 codecs x 4 kinds x gzip on/off x {0,1,2,3 messages} x {success, error}); segmentations = all 2^(n-1) compositions for bodies up to the bound (quick 12, thorough 16 bytes), else 1-byte reads, every split inside each 5-byte prefix, payload boundary +-1, halving, seeded random; each with EOF on the last data read and EOF on a separate read, alternately with and without a read limit configured on the receiver; plus passes where the receiver rejects messages locally under a tiny read limit (client: error responses; handler: client/bidi streams, reading on after each rejection); oracle: outcome (messages, error code+text, metadata) == outcome of one-piece delivery, which must equal what the application supplied; distinct by (body, segmentation class)")
+	run.SetRule("bodies = valid request and response bodies recorded from connect-go peers (3 protocols x 2 codecs x 4 kinds x gzip on/off x {0,1,2,3 messages} x {success, error}); segmentations = all 2^(n-1) compositions for bodies up to the bound (quick 12, thorough 16 bytes), else 1-byte reads, every split inside each 5-byte prefix, payload boundary +-1, halving, seeded random; each with EOF on the last data read and EOF on a separate read, alternately with and without a read limit configured on the receiver; plus passes where the receiver rejects messages locally under a tiny read limit (client: error responses; handler: client/bidi streams, reading on after each rejection); also true Content-Length declared on every third request segmentation; non-200 responses (proxy pages, gateway JSON, octets) under every segmentation; oracle: outcome (messages, error code+text, metadata) == outcome of one-piece delivery, which must equal what the application supplied; distinct by (body, segmentation class)")
 	bound := run.Pick(12, 16)
 	nrandom := run.Pick(25, 2500)
 	small := buildCorpus(corpusSpec{protos: svc.Protocols, codecs: []string{"proto"}, kinds: svc.Kinds, gzips: []bool{false},
